@@ -19,7 +19,8 @@ const BAD_LINES: [&str; 10] = [
 
 /// the lexical pieces an argument is made of (escape sequences, variable references, plain
 /// characters): sequences of them exercise the parser's escape state across one argument
-pub const PIECES: [&str; 16] = ["\\${", "\\$", "\\\"", "\\\\", "\\n", "\\t", "\\r", "${", "%{", "}", "a", "\"", " ", "#", "$", "\\"];
+// (the last three: a backslash before a non-ASCII character whose LOW BYTE is that of `n`, `\` or `"`)
+pub const PIECES: [&str; 19] = ["\\${", "\\$", "\\\"", "\\\\", "\\n", "\\t", "\\r", "${", "%{", "}", "a", "\"", " ", "#", "$", "\\", "\\\u{16e}", "\\\u{15c}", "\\\u{122}"];
 
 pub fn gen_text(rng: &mut Rng) -> (String, Vec<&'static str>) {
     let mode = rng.below(6);
@@ -152,6 +153,11 @@ impl Prop for C08Prop {
                 out.push(Case { req: format!("parse {}", enc_str(&l)), in_domain: true, nontrivial: true, tags: vec!["exhaustive-pieces"] });
             }
         }
+        // very long lines (the Lean model is not built for megabyte inputs: these five are judged
+        // by construction, request `parsehuge <k>`, see `run_huge`)
+        for k in 0..5 {
+            out.push(Case { req: format!("parsehuge {}", k), in_domain: true, nontrivial: true, tags: vec!["huge-line"] });
+        }
         for l in GOOD_LINES.iter().chain(BAD_LINES.iter()) {
             out.push(Case { req: format!("parse {}", enc_str(l)), in_domain: true, nontrivial: true, tags: vec!["seed-line"] });
             out.push(Case { req: format!("iparse {}", enc_str(l)), in_domain: true, nontrivial: true, tags: vec!["seed-line", "indexed"] });
@@ -175,6 +181,9 @@ impl Prop for C08Prop {
     }
     fn run_impl(&self, req: &str, _model: &str) -> String {
         let toks: Vec<&str> = req.split(' ').collect();
+        if toks[0] == "parsehuge" {
+            return run_huge(toks[1].parse().unwrap());
+        }
         let text = dec_str(toks[1]).unwrap();
         if toks[0] == "iparse" {
             // the real index arithmetic on the same text; a panic unwinds to the framework's
@@ -191,6 +200,9 @@ impl Prop for C08Prop {
             return Some(false);
         }
         let toks: Vec<&str> = req.split(' ').collect();
+        if toks[0] == "parsehuge" {
+            return Some(imp == "huge-ok");
+        }
         let text = dec_str(toks[1]).unwrap();
         if imp.starts_with("OK ") {
             let has_directive = text.lines().any(|l| l.trim().starts_with('!'));
@@ -215,6 +227,9 @@ impl Prop for C08Prop {
     }
     fn shrink(&self, req: &str) -> Vec<String> {
         let toks: Vec<&str> = req.split(' ').collect();
+        if toks[0] == "parsehuge" {
+            return vec![];
+        }
         let text = dec_str(toks[1]).unwrap();
         let cs: Vec<char> = text.chars().collect();
         let mut out = vec![];
@@ -236,6 +251,59 @@ impl Prop for C08Prop {
     }
     fn describe(&self, req: &str) -> String {
         let toks: Vec<&str> = req.split(' ').collect();
+        if toks[0] == "parsehuge" {
+            return format!("very long input number {} (200 000 arguments / > 2^20 characters, see run_huge in harness/src/props/c08.rs)", toks[1]);
+        }
         format!("parse_text({:?}){}", dec_str(toks[1]).unwrap_or_default(), if toks[0] == "iparse" { " vs index-faithful model" } else { "" })
+    }
+}
+
+/// Five very long inputs whose correct parse is known by construction: 200 000 one-character
+/// arguments on one line (recursion depth / allocation per argument), the same followed by an
+/// unterminated quote, a line of more than 2^20 characters whose LAST token is malformed (the
+/// whole line must be scanned: unterminated quote / undocumented escape), and a well-formed
+/// quoted argument of that size.  Answer `huge-ok` or a description of what came out instead.
+fn run_huge(k: usize) -> String {
+    use duckscript::types::error::ScriptError;
+    use duckscript::types::instruction::InstructionType;
+    let many: String = (0..200_000).map(|i| if i % 2 == 0 { 'a' } else { ' ' }).collect();
+    let long_word = "abcdefghij ".repeat(96_000);
+    let text = match k {
+        0 => format!("echo first\nout = echo {}\necho last\n", many),
+        1 => format!("echo first\nout = echo {} \"unterminated\necho last\n", many),
+        2 => format!("echo first\nout = echo {}\"unterminated\necho last\n", long_word),
+        3 => format!("echo first\n\nout = echo {}a\\qb\n", long_word),
+        _ => format!("out = echo \"{}\"\n", long_word),
+    };
+    let r = duckscript::parser::parse_text(&text);
+    let line_of = |m: &duckscript::types::instruction::InstructionMetaInfo| m.line.unwrap_or(0);
+    let ok = match (k, &r) {
+        (0, Ok(is)) => {
+            is.len() == 3
+                && is.iter().enumerate().all(|(i, ins)| ins.meta_info.line == Some(i + 1))
+                && match &is[1].instruction_type {
+                    InstructionType::Script(s) => s.output.as_deref() == Some("out") && s.command.as_deref() == Some("echo") && s.arguments.as_ref().map_or(false, |a| a.len() == 100_000 && a.iter().all(|x| x == "a")),
+                    _ => false,
+                }
+        }
+        (1, Err(ScriptError::MissingEndQuotes(m))) | (2, Err(ScriptError::MissingEndQuotes(m))) => line_of(m) == 2,
+        (3, Err(ScriptError::ControlWithoutValidValue(m))) => line_of(m) == 3,
+        (4, Ok(is)) => {
+            is.len() == 1
+                && match &is[0].instruction_type {
+                    InstructionType::Script(s) => s.arguments.as_ref().map_or(false, |a| a.len() == 1 && a[0] == long_word),
+                    _ => false,
+                }
+        }
+        _ => false,
+    };
+    if ok {
+        "huge-ok".to_string()
+    } else {
+        let what = match &r {
+            Ok(is) => format!("Ok-with-{}-instructions", is.len()),
+            Err(e) => format!("{:?}", e).chars().take(60).collect::<String>().replace(' ', "_"),
+        };
+        format!("huge-BAD-{}-{}", k, what)
     }
 }
